@@ -362,7 +362,10 @@ def op_fieldmap(case):
     try:
         for ci, c in enumerate(case["cases"]):
             res = {}
-            for mode in ("whole", "lines"):
+            # file layouts: one pretty-printed file per document (whole-file mode); one line per document in one file
+            # (per-line mode), the same followed by an empty line, the same without a final newline, and one
+            # single-line file per document read in per-line mode
+            for mode in c.get("modes", ("whole", "lines")):
                 d = os.path.join(base, "%d_%s" % (ci, mode))
                 os.makedirs(d)
                 try:
@@ -370,11 +373,16 @@ def op_fieldmap(case):
                         for k, doc in enumerate(c["docs"]):
                             with open(os.path.join(d, "f%03d.json" % k), "w") as fh:
                                 json.dump(doc, fh, indent=2)
-                    else:
-                        with open(os.path.join(d, "all.jsonl"), "w") as fh:
-                            for doc in c["docs"]:
+                    elif mode == "lines-files":
+                        for k, doc in enumerate(c["docs"]):
+                            with open(os.path.join(d, "f%03d.json" % k), "w") as fh:
                                 fh.write(json.dumps(doc) + "\n")
-                    cfg = JSONDataSourceConfig(filepath=None, dirpath=d, json_per_line=(mode == "lines"),
+                    else:
+                        text = "\n".join(json.dumps(doc) for doc in c["docs"])
+                        text += {"lines": "\n", "lines-blank-end": "\n\n", "lines-no-newline": ""}[mode]
+                        with open(os.path.join(d, "all.jsonl"), "w") as fh:
+                            fh.write(text)
+                    cfg = JSONDataSourceConfig(filepath=None, dirpath=d, json_per_line=(mode != "whole"),
                                                field_mapping=c["field_mapping"])
                     evs = [e.model_dump() for e in JSONDataSource(cfg)]
                     res[mode] = {"events": evs}
